@@ -36,8 +36,8 @@ def decode_cex(log_text, assertion_desc=None):
     """Parse Kani's concrete-playback print for the failing assertion -> list of ints."""
     blocks = re.split(r"Concrete playback unit test for", log_text)
     for b in blocks[1:]:
-        m = re.search(r"Check for `assertion`: \"+(.*?)\"+\n", b)
-        if not m:
+        m = re.search(r"Check for `(?:assertion|cover)`: \"+(?:CEX:)?(.*?)\"+\n", b)
+        if not m or ("`cover`" in m.group(0) and "CEX:" not in m.group(0)):
             continue
         if assertion_desc and assertion_desc not in m.group(1):
             continue
@@ -52,6 +52,7 @@ def decode_cex(log_text, assertion_desc=None):
 def target_from_cex(harness, vals):
     def signed(v, n):
         return v - (1 << (8 * n)) if v >= 1 << (8 * n - 1) else v
+    vals = vals[1:]  # vals[0] is the playback tag
     m, q, n, b = vals[0][0], vals[1][0], vals[2][0], vals[3][0]
     s = signed(vals[4][0], 4)
     h = [vals[5][0], vals[6][0], vals[7][0]]
@@ -92,9 +93,11 @@ class Native:
             raise RuntimeError("native replay build failed:\n" + out.stderr[-3000:])
         return self.bin
 
-    def search(self, target, depth=14):
+    def search(self, target, depth=14, ignore_stale=False):
         b = self.build()
         env = dict(os.environ, VERIF_RC_TARGET=target, VERIF_RC_DEPTH=str(depth))
+        if ignore_stale:
+            env["VERIF_RC_IGNORE_STALE"] = "1"
         try:
             out = subprocess.run([b, "verif_rc_native::search", "--exact", "--nocapture", "--test-threads", "1"],
                                  env=env, capture_output=True, text=True, timeout=600).stdout
@@ -104,7 +107,8 @@ class Native:
         hm = re.search(r"(?<!PRESTATE-)HISTORY: (.*)", out)
         em = re.search(r"EXPECTED: (.*)", out)
         if hm and em:
-            return hm.group(1).strip(), em.group(1).strip(), None
+            note = " (solver pre-state not reproduced; history found by unguided native search)" if "FALLBACK" in out else ""
+            return hm.group(1).strip(), em.group(1).strip() + note, None
         if "UNREACHED" in out:
             return None, None, "pre-state not reachable by any history of <= %d real operations (invariant too weak for this tree)" % depth
         if "NOFAILURE" in out:
@@ -141,8 +145,8 @@ def replay_file(pid, key, payload):
     return path
 
 
-def classify(harness, desc, pre):
-    if "merge-queue entry" in desc:
+def classify(harness, desc, pre, expected="", observed=""):
+    if "merge-queue entry" in desc and ("queue entry outlived" in expected or "explicit_merge" in observed):
         return KF_STALE
     return "rc:%s:%s" % (harness, re.sub(r"[^a-z0-9]+", "-", desc.lower()).strip("-")[:60])
 
@@ -165,13 +169,13 @@ def handle_failure(run, r, wsdir, root, native, logdir, tdir):
     if not vals or h not in OPS:
         return "inconclusive", "counterexample values could not be extracted for %s (%s)" % (h, desc), None
     pre, tgt, op = target_from_cex(h, vals)
-    hist, expected, why = native.search(tgt)
+    hist, expected, why = native.search(tgt, ignore_stale=run.is_known(KF_STALE) and "merge-queue entry" not in desc)
     if not hist:
         return "inconclusive", "solver counterexample %s / %s not replayed: %s" % (pre, op, why), None
     failed, observed = native.run_history(hist)
     if not failed:
         return "inconclusive", "history %s did not fail natively (expected: %s)" % (hist, expected), None
-    key = classify(h, desc, pre)
+    key = classify(h, desc, pre, expected, observed)
     payload = {"property": run.pid, "key": key, "engine": "kani-incrate + native replay (real threads, valgrind)",
                "harness": h, "failed_assertion": desc, "solver_prestate": pre, "operation": op,
                "history": hist, "expected": expected, "observed": observed,
@@ -224,7 +228,10 @@ def check(pid, tier, seed, harness_list, thorough_extra, prop_note):
             continue
         # failed
         masked_twin = h in MASKED and run.is_known(MASKED[h])
-        st, info, _ = handle_failure(run, r, wsdir, root, native, logdir, os.path.join(root, "tk", "cex"))
+        try:
+            st, info, _ = handle_failure(run, r, wsdir, root, native, logdir, os.path.join(root, "tk", "cex"))
+        except Exception as e:  # replay machinery failed: never a verdict
+            st, info = "inconclusive", "replay machinery failed: %s" % str(e)[-600:]
         if st == "inconclusive":
             run.ob(h, "inconclusive", reason=info, **common)
             continue
